@@ -1,3 +1,68 @@
-import Holpy.Common.Sexp
-/- stub: replaced when the C09 model is built -/
-def main : IO Unit := Holpy.lineLoop (fun _ => "bad-op")
+import Holpy.Kernel.Wire
+import Holpy.C09.Model
+/-
+Line protocol of the matcher model:
+  (match FUEL BFUEL PAT T SEED)            -> (ok MINST) | (err KIND)
+  (matchlist FUEL BFUEL (PAT*) (T*) SEED)  -> (ok MINST) | (err KIND)
+  (ispattern T (name*) (name*))            -> T | F
+  SEED  := (noinst) | MINST
+  MINST := (minst ((name Ty)*) ((name Term)*) ((name Term)*) ((name name)*))
+  KIND  := match | typecheck | term | crash | fuel
+-/
+open Holpy Holpy.Wire
+
+namespace Holpy.C09.Driver
+
+def namesOf (l : List Sexp) : Option (List (String × String)) :=
+  l.mapM fun
+    | .list [.atom a, .atom b] => some (a, b)
+    | _ => none
+
+def atomsOf (l : List Sexp) : Option (List String) :=
+  l.mapM fun
+    | .atom a => some a
+    | _ => none
+
+def instOf : Sexp → Option MInst
+  | .list [.atom "noinst"] => some MInst.empty
+  | .list [.atom "minst", .list ty, .list sv, .list vs, .list ns] => do
+    some ⟨← tyInstOf ty, ← termMapOf sv, ← termMapOf vs, ← namesOf ns⟩
+  | _ => none
+
+def instTo (i : MInst) : Sexp :=
+  .list [.atom "minst",
+    .list (i.tyinst.map fun (n, T) => .list [.atom n, tyTo T]),
+    .list (i.svars.map fun (n, t) => .list [.atom n, termTo t]),
+    .list (i.varInst.map fun (n, t) => .list [.atom n, termTo t]),
+    .list (i.absNames.map fun (n, m) => .list [.atom n, .atom m])]
+
+def errTo : MErr → String
+  | .nomatch => "match"
+  | .typeCheck => "typecheck"
+  | .term => "term"
+  | .crash => "crash"
+  | .fuel => "fuel"
+
+def answer : Except MErr MInst → String
+  | .ok i => toString (Sexp.list [.atom "ok", instTo i])
+  | .error e => toString (Sexp.list [.atom "err", .atom (errTo e)])
+
+def handle (line : String) : String :=
+  match Sexp.parse line with
+  | some (.list [.atom "match", fuel, bf, p, t, seed]) =>
+    match fuel.toNat?, bf.toNat?, termOf p, termOf t, instOf seed with
+    | some fu, some b, some pat, some tm, some i => answer (firstOrderMatch b fu pat tm i)
+    | _, _, _, _, _ => "bad-op"
+  | some (.list [.atom "matchlist", fuel, bf, .list ps, .list ts, seed]) =>
+    match fuel.toNat?, bf.toNat?, ps.mapM termOf, ts.mapM termOf, instOf seed with
+    | some fu, some b, some pats, some tms, some i => answer (firstOrderMatchList b fu pats tms i)
+    | _, _, _, _, _ => "bad-op"
+  | some (.list [.atom "ispattern", t, .list ms, .list bs]) =>
+    match termOf t, atomsOf ms, atomsOf bs with
+    | some tm, some m, some b => toString (Sexp.ofBool (isPat tm m b))
+    | _, _, _ => "bad-op"
+  | _ => "bad-op"
+
+end Holpy.C09.Driver
+
+def main : IO Unit := Holpy.lineLoop Holpy.C09.Driver.handle
